@@ -172,3 +172,63 @@ Definition chk_release_tok (c : release_tok_case) : bool :=
 Definition diag_release_tok (c : release_tok_case) :=
   let '(pm, m, cl, point, secondary, tscope, gscope, req, ui, exp_rel) := c in
   release_tok pm m cl point secondary tscope gscope req ui.
+
+(* ---- ID Tokens minted by the AUTHORIZATION endpoint: the release point is a function of the response type ----
+   Authorization.create_authn_response: rtype = set(request["response_type"]); when "id_token" is in rtype the endpoint
+   itself mints an ID Token (Grant.mint_token -> payload_arguments(claims_release_point="id_token",
+   secondary_identifier=kwargs.get("as_if"))).  as_if = "userinfo" is handed in exactly when rtype == {"id_token"}: no
+   access token will ever exist for that flow, so nothing could be fetched from the userinfo endpoint (OIDC Core 5.4:
+   "when no Access Token is issued (which is the case for the response_type value id_token), the resulting Claims are
+   returned in the ID Token").  For every other response type - code id_token, id_token token, code id_token token - and
+   for the ID Tokens of the token endpoint (code redemption, refresh) the secondary release point is empty: the id_token
+   rules alone decide.  A response type is the list of its words (the library makes a set of them: order and
+   repetitions do not matter). *)
+Definition W_id_token : pystr := PS "id_token".
+Definition W_userinfo : pystr := PS "userinfo".
+Definition id_token_alone (rt : list pystr) : bool :=
+  match rt with [] => false | _ => forallb (fun w => str_eqb w W_id_token) rt end.
+(* (release point, secondary release point) of the ID Token in the authorization response of a request with response type rt *)
+Definition idt_release_point (rt : list pystr) : pystr * pystr :=
+  (W_id_token, if id_token_alone rt then W_userinfo else []).
+(* ... and of an ID Token minted by the token endpoint, whatever the response type of the authorization request was *)
+Definition idt_release_point_token_endpoint : pystr * pystr := (W_id_token, []).
+(* what the ID Token of the authorization response shows about the user *)
+Definition release_authz_idt (provider_map : scope_map) (m : module_cfg) (cl : option client_cfg) (rt : list pystr)
+           (token_scope : option (list pystr)) (grant_scope : list pystr) (request_claims : restriction)
+           (userinfo : list (pystr * pyval)) : list (pystr * pyval) :=
+  release_tok provider_map m cl (fst (idt_release_point rt)) (snd (idt_release_point rt)) token_scope grant_scope request_claims userinfo.
+
+(* the client's own entries for ONE release point *)
+Definition by_scope_at (c : client_cfg) (point : pystr) : option bool :=
+  match c.(c_by_scope) with Some d => assoc point d | None => None end.
+Definition always_at (c : client_cfg) (point : pystr) : list pystr :=
+  match assoc point c.(c_always) with Some l => l | None => [] end.
+(* the rules of one release point alone: is the scope -> claims mapping on, which claims are always added *)
+Definition by_scope_rule (m : module_cfg) (cl : option client_cfg) (point : pystr) : bool :=
+  match cl with
+  | Some c => if m.(m_per_client) then match by_scope_at c point with Some b => b | None => m.(m_by_scope) end else m.(m_by_scope)
+  | None => m.(m_by_scope)
+  end.
+Definition always_rule (m : module_cfg) (cl : option client_cfg) (point : pystr) : option always_cfg :=
+  match cl with
+  | Some c => if m.(m_per_client) then Some (AList (always_at c point)) else m.(m_always)
+  | None => m.(m_always)
+  end.
+(* a client configuration without its entries for one release point *)
+Fixpoint remove_key {V} (k : pystr) (d : list (pystr * V)) : list (pystr * V) :=
+  match d with [] => [] | (k', v) :: r => if str_eqb k k' then remove_key k r else (k', v) :: remove_key k r end.
+Definition without_point (p : pystr) (c : client_cfg) : client_cfg :=
+  mkClient (match c.(c_by_scope) with Some d => Some (remove_key p d) | None => None end) (remove_key p c.(c_always))
+           c.(c_allowed_scopes) c.(c_scope_map).
+
+(* the user attributes found in the ID Token of a real authorization response, compared as a set *)
+Definition authz_idt_case :=
+  (scope_map * module_cfg * option client_cfg * list pystr * option (list pystr) * list pystr * restriction
+   * list (pystr * pyval) * list (pystr * pyval))%type.
+Definition chk_authz_idt (c : authz_idt_case) : bool :=
+  let '(pm, m, cl, rt, tscope, gscope, req, ui, exp_rel) := c in
+  let rel := release_authz_idt pm m cl rt tscope gscope req ui in
+  released_subset rel exp_rel && released_subset exp_rel rel.
+Definition diag_authz_idt (c : authz_idt_case) :=
+  let '(pm, m, cl, rt, tscope, gscope, req, ui, exp_rel) := c in
+  (idt_release_point rt, release_authz_idt pm m cl rt tscope gscope req ui).
